@@ -79,6 +79,23 @@ def to_dap(entry, pup):
     raise vlib.ToolError(f"unknown model command {cmd}")
 
 
+def with_source_map(steps, pup):
+    """The same history as a client whose workspace lives elsewhere sees it: launch carries a sourceMap
+    (target prefix -> client prefix) and every setBreakpoints names the file by its client path.  Path
+    mapping is presentation only: the reference is unchanged."""
+    tdir = os.path.dirname(pup["src"])
+    cdir = "/c13-client/ws"
+    out = []
+    for st in steps:
+        st = json.loads(json.dumps(st))
+        if st["cmd"] == "launch":
+            st["args"]["sourceMap"] = {tdir: cdir}
+        elif st["cmd"] == "setBreakpoints":
+            st["args"]["source"]["path"] = cdir + "/" + os.path.basename(pup["src"])
+        out.append(st)
+    return out
+
+
 def model_obs(o, keys):
     """Observation of the model (reference or a cfg) in the comparison form."""
     if "ver" in o:
@@ -353,6 +370,8 @@ def run(rep, tier, replay):
         if not beh:
             raise vlib.ToolError("replay file carries no behaviour")
         steps = [{"cmd": "launch", "args": {"program": pup["prog"]}}] + [to_dap(e, pup)[0] for e in beh]
+        if rec.get("source_map"):
+            steps = with_source_map(steps, pup)
         out = run_session(exe, steps, work, 0)
         if unfinished(out):
             raise vlib.ToolError(f"the replayed session did not finish inside its budget ({out['end']})")
@@ -443,12 +462,15 @@ def run(rep, tier, replay):
     def job(ix):
         b = chosen[ix]
         steps = [{"cmd": "launch", "args": {"program": pup["prog"]}}] + [to_dap(e, pup)[0] for e in b]
+        if ix % 3 == 2:
+            steps = with_source_map(steps, pup)
         per = 40 if tier == "quick" else 90
         o = run_session(exe, steps, work, ix, timeout_s=per)
         if o["end"] != "ok" and not o["end"].startswith("panic") and time.time() + per / 2 < deadline:
             o2 = run_session(exe, steps, work, ix, timeout_s=per)   # an overloaded machine must not become a finding
             if o2["end"] == "ok":
                 o = o2
+        o["smap"] = ix % 3 == 2
         return o
 
     outs = [None] * len(chosen)
@@ -491,7 +513,8 @@ def run(rep, tier, replay):
         for fr in info.get("flag_records", []):
             causes[fr["cause"] + "/" + fr["cls"]] = causes.get(fr["cause"] + "/" + fr["cls"], 0) + 1
             rep.mismatch(fr["cls"], fr["action"], cause=fr["cause"], step=fr["step"], what=fr.get("what"),
-                         expected=fr["expected"], actual=fr["actual"], script=fr["script"], behaviour=b)
+                         expected=fr["expected"], actual=fr["actual"], script=fr["script"], behaviour=b,
+                         source_map=o.get("smap", False))
         steps_compared += info["steps_compared"]
         muted_steps += info["muted_steps"]
         obs_hashes.add(vlib.stable_hash([[e["cmd"], e["arg"], e["ref"]] for e in b]))
@@ -506,7 +529,8 @@ def run(rep, tier, replay):
             n_mis += 1
             causes[r["cause"] + "/" + r["cls"]] = causes.get(r["cause"] + "/" + r["cls"], 0) + 1
             rep.mismatch(r["cls"], r["action"], cause=r["cause"], step=r["step"], what=r.get("what"),
-                         expected=r["expected"], actual=r["actual"], script=r["script"], behaviour=b)
+                         expected=r["expected"], actual=r["actual"], script=r["script"], behaviour=b,
+                         source_map=o.get("smap", False))
     if skipped:
         vlib.log(f"[replay] {skipped} session(s) did not finish inside their budget: skipped, not judged")
     if len(done) - skipped < min(T["min_sessions"], len(chosen)) or skipped > max(3, len(done) // 2):
